@@ -62,7 +62,10 @@ ActionKind(a) ==
     [] a \in {"drop", "Drop"}               -> "drop"
     [] OTHER                                -> "bad"       \* "", "deny", ...
 
-Extras == {"none", "unknownkey", "nonstring_field", "nonstring_action"}
+\* a value that is not a string, one variant per YAML/JSON type (nil = a key written without a value)
+NonStringTypes == {"int", "bool", "nil", "list", "map", "float"}
+Extras == {"none", "unknownkey", "unknownkey_nil", "nonstring_action"} \cup {"nonstring_field_" \o t : t \in NonStringTypes}
+                \cup {"nonstring_action_nil"}
 
 MkRule(act, fn, tn, fs, ts, extra, kc) ==
   [action |-> act, fromnode |-> fn, tonode |-> tn, fromservice |-> fs, toservice |-> ts,
@@ -107,6 +110,9 @@ SingleRules ==
   { [[base(act) EXCEPT ![f] = pat] EXCEPT ![g] = IF g = f THEN pat ELSE "a"] :
       act \in {"accept", "reject", "drop"}, f \in FieldSet, pat \in AllPats, g \in FieldSet }
 
+\* every malformed-element variant on an otherwise well-formed rule (all must be refused)
+ExtraRules == { MkRule(act, fn, "", "", "", x, kc) : act \in {"accept", "drop"}, fn \in {"", "a"}, x \in Extras \ {"none"}, kc \in {"lower", "upper"} }
+
 SinglePkts(r) ==
   \* the focus value ranges over U on every field the rule constrains; other fields are "a"/"b"
   { Pkt(fn, tn, fs, ts) :
@@ -129,7 +135,10 @@ Kinds ==
     MkRule("deny",   "", "", "", "", "none", "lower"),
     MkRule("",       "a", "", "", "", "none", "lower"),
     MkRule("drop",   "", "", "", "", "unknownkey", "lower"),
-    MkRule("drop",   "", "", "", "", "nonstring_field", "lower"),
+    MkRule("drop",   "", "", "", "", "nonstring_field_int", "lower"),
+    MkRule("drop",   "", "", "", "", "nonstring_field_nil", "lower"),
+    MkRule("drop",   "", "", "", "", "nonstring_field_list", "lower"),
+    MkRule("accept", "", "", "", "", "unknownkey_nil", "lower"),
     MkRule("drop",   "", "", "", "", "nonstring_action", "lower") }
 
 ListPkts == { Pkt(fn, tn, fs, ts) : fn \in {"a", "b", "ab"}, tn \in {"a", "b"}, fs \in {"ab", "unreach"}, ts \in {"ab", "b"} }
@@ -146,7 +155,7 @@ Vec(fam, rs, p) ==
 
 SingleVectors ==
   UNION { IF RuleOK(r) THEN { Vec("single", <<r>>, p) : p \in SinglePkts(r) }
-                       ELSE { Vec("single", <<r>>, NoPkt) } : r \in SingleRules }
+                       ELSE { Vec("single", <<r>>, NoPkt) } : r \in SingleRules \cup ExtraRules }
 
 ListVectors ==
   UNION { IF ParseOK(rs) THEN { Vec("list", rs, p) : p \in ListPkts }
